@@ -2,7 +2,7 @@
    (i) for every result of the evaluation phase, for every input, matcher outcome (the matched pair a),
    metric selection and decision metric/threshold; (ii) for every directly constructed result. *)
 From Pan Require Import Base.Common Base.Sx Base.Rnd64 Model.MetricTable Model.Metrics Model.EdgeCase Model.Result
-  Model.ZeroCase Model.Pipeline Proofs.ResultFacts Proofs.MetricsFacts Proofs.PipelineFacts Proofs.C02Proofs.
+  Model.ZeroCase Model.Pipeline Proofs.ResultFacts Proofs.MetricsFacts Proofs.PipelineFacts Proofs.C02Proofs Proofs.Rnd64Facts Proofs.RoundedFacts.
 Open Scope Z_scope.
 
 (* tp + fp = number of predicted instances, tp + fn = number of reference instances,
@@ -57,6 +57,16 @@ Proof. exact meanQ_le. Qed.
 Theorem C02_dice_ge_iou_per_instance : forall a, binary a ->
   (iou_exact (n_inter a) (n_union a) <= dice_exact (sum_ref a) (sum_pred a) (n_inter a))%Q.
 Proof. exact dice_ge_iou. Qed.
+
+(* the same for the reported doubles (one IEEE rounding each; rounding is monotone, Proofs/Rnd64Facts.v) *)
+Theorem C02_reported_rq_in_unit_interval : forall tp np nr, 0 < tp -> tp <= np -> tp <= nr ->
+  exists q, calc_rq np nr tp = FQ q /\ (0 < q <= 1)%Q.
+Proof. exact rq_reported_range. Qed.
+Theorem C02_reported_dice_ge_iou_per_instance : forall ri pis a, (iou (Some (ri, pis)) a <= dice (Some (ri, pis)) a)%Q.
+Proof. exact dice_ge_iou_reported. Qed.
+Theorem C02_reported_scores_in_unit_interval : forall ri pis a,
+  (0 <= dice (Some (ri, pis)) a <= 1)%Q /\ (0 <= iou (Some (ri, pis)) a <= 1)%Q.
+Proof. intros. split; [apply dice_sel_reported_range|apply iou_reported_range]. Qed.
 
 (* non-vacuity: README-style example with a decision threshold: one of two matched instances fails it *)
 Example C02_nonvacuous :
